@@ -1,0 +1,25 @@
+//go:build verif
+
+package client
+
+// VerifSizes reports the number of entries in the connection's per-exchange tables
+// (verification harness only; read-only).
+type VerifSizes struct {
+	TokenHandlers      int
+	BlockwiseReceiving int
+	BlockwiseSending   int
+	Observations       int
+	LimiterQueues      int
+}
+
+func (cc *Conn) VerifSizes() VerifSizes {
+	s := VerifSizes{
+		TokenHandlers: cc.tokenHandlerContainer.Length(),
+		Observations:  cc.observationHandler.VerifSize(),
+		LimiterQueues: cc.Client.LimitParallelRequests.VerifQueues(),
+	}
+	if cc.blockWise != nil {
+		s.BlockwiseReceiving, s.BlockwiseSending = cc.blockWise.VerifSizes()
+	}
+	return s
+}
